@@ -333,6 +333,11 @@ class C11(Property):
                                          ["shutdown"], ["add", 1, 4, 5], ["rel", 0], ["rel", 0]]))
         # the listener's Flush while the flusher has decided to quit and sits in ticker.Stop()
         cs.append(single("bag", 3, 2, quit_ + [["add", 1, 2, 1], ["shutdown"], ["add", 0, 3, 1], ["sgo"], ["relall"]], gates=True))
+        # thresholds 0 and negative (every Add reaches the threshold, also a weight-0 chunk task), threshold 1
+        for kind in ("bulk", "chunk", "bag"):
+            for maxw in (0, -1):
+                cs.append(single(kind, maxw, 2, [["add", 0, 1, 1], ["add", 1, 2, 0], ["rel", 0], ["flush", 0], ["add", 0, 3, 2],
+                                                 ["rel", 0], ["rel", 0], ["wait", 1]]))
         # several instances at once: the same ids never cross, one shutdown reaches all of them, shared clock
         two = {"insts": [{"kind": "bulk", "maxw": 2, "interval": 1000, "nclients": 2},
                          {"kind": "chunk", "maxw": 4, "interval": 500, "nclients": 2},
@@ -491,6 +496,8 @@ class C11(Property):
             for _i in range(ninst):
                 kind = rng.choice(["bulk", "bulk", "bulk", "chunk", "chunk", "periodical", "bag"])
                 maxw = rng.choice([1, 2, 2, 3, 4]) if kind == "bulk" else rng.choice([1, 2, 3, 4, 5, 8])
+                if rng.random() < 0.04:
+                    maxw = rng.choice([0, -1])      # threshold 0 / negative: every Add reaches it
                 ncl = rng.choice([2, 3, 3, 4]) if ninst == 1 else rng.choice([2, 2, 3])
                 insts.append({"kind": kind, "maxw": maxw, "interval": rng.choice([1000, 1000, 500]), "nclients": ncl})
             long_lived = ninst == 1 and rng.random() < 0.12
